@@ -443,6 +443,22 @@ type serializer struct {
 	mask  reflect.Type
 	spare bool // also write the elements between len and cap (purity fingerprints)
 	nocap bool // do not write slice capacities (state identity of pointer structures)
+	addr  bool // write pointers, channels and functions with their addresses (see purityString)
+}
+
+// purityString: the bytes of a structure for a BEFORE / AFTER comparison inside one process (did this read-only call change
+// anything?).  Pointers are written with their addresses - Go's collector does not move heap objects - so that the text of a
+// map's entries, which are written in the order of their key texts, does not depend on Go's map iteration order even when keys
+// or values are pointers to look-alike objects.  (State identity across replays, canon(), cannot use addresses.)
+func purityString(x any) (s string) {
+	defer func() {
+		if r := recover(); r != nil {
+			s = "!reflect:" + fmt.Sprint(r)
+		}
+	}()
+	z := &serializer{ids: map[uintptr]int{}, spare: true, addr: true}
+	z.walk(reflect.ValueOf(x), 0)
+	return string(z.buf)
 }
 
 func deepString(x any, mask reflect.Type, spare, nocap bool) (s string) {
@@ -497,6 +513,9 @@ func (z *serializer) walk(v reflect.Value, depth int) {
 			return
 		}
 		id := len(z.ids) + 1
+		if z.addr {
+			id = int(p)
+		}
 		z.ids[p] = id
 		z.w("&")
 		z.buf = strconv.AppendInt(z.buf, int64(id), 10)
@@ -570,7 +589,7 @@ func (z *serializer) walk(v reflect.Value, depth int) {
 					scratch[p] = id
 				}
 			}
-			zk := &serializer{ids: scratch, mask: nil, spare: z.spare, nocap: z.nocap}
+			zk := &serializer{ids: scratch, mask: nil, spare: z.spare, nocap: z.nocap, addr: z.addr}
 			zk.walk(it.Key(), depth+1)
 			ents = append(ents, kv{string(zk.buf), it.Key(), it.Value()})
 		}
@@ -588,7 +607,7 @@ func (z *serializer) walk(v reflect.Value, depth int) {
 					for p, id := range z.ids {
 						scratch[p] = id
 					}
-					zv := &serializer{ids: scratch, mask: z.mask, spare: z.spare, nocap: z.nocap}
+					zv := &serializer{ids: scratch, mask: z.mask, spare: z.spare, nocap: z.nocap, addr: z.addr}
 					zv.walk(ents[t].elem, depth+1)
 					vt[t-i] = string(zv.buf)
 				}
@@ -610,7 +629,7 @@ func (z *serializer) walk(v reflect.Value, depth int) {
 			if i > 0 {
 				z.w(",")
 			}
-			zk := &serializer{ids: z.ids, mask: nil, spare: z.spare, nocap: z.nocap}
+			zk := &serializer{ids: z.ids, mask: nil, spare: z.spare, nocap: z.nocap, addr: z.addr}
 			zk.walk(e.key, depth+1)
 			z.buf = append(z.buf, zk.buf...)
 			z.w(":")
@@ -633,6 +652,9 @@ func (z *serializer) walk(v reflect.Value, depth int) {
 		id, ok := z.ids[p]
 		if !ok {
 			id = len(z.ids) + 1
+			if z.addr {
+				id = int(p)
+			}
 			z.ids[p] = id
 		}
 		z.w(v.Kind().String()[:1] + "#")
